@@ -648,13 +648,10 @@ impl<Backing : AsRef<[u32]> + AsMut<[u32]>> DrawTarget<Backing> {
     pub fn push_layer_with_blend(&mut self, opacity: f32, blend: BlendMode) {
         #[cfg(raqote_verif)]
         let _verif = crate::verif_trace::enter(self.verif_id, self.width, self.height, self.buf.as_ref(), || format!("{{\"op\":\"push_layer\",\"opacity\":{},\"blend\":\"{:?}\"}}", crate::verif_trace::f(opacity), blend));
-        // nothing outside the target can ever be seen, and the clip can be arbitrarily large
-        let mut rect = self.clip_bounds().intersection_unchecked(&intrect(0, 0, self.width, self.height));
-        // the clip can be an inverted box (disjoint clip rects) whose width * height
-        // is negative or a bogus positive number: such a layer is simply empty
-        if rect.is_empty() {
-            rect = IntRect::zero();
-        }
+        // The layer covers the whole target and not just the current clip: clips that were pushed
+        // before the layer can be popped while it is open, and the layer is composited through
+        // the clip that is current when it is popped.
+        let rect = intrect(0, 0, self.width, self.height);
         self.layer_stack.push(Layer {
             rect,
             buf: vec![0; (rect.size().width * rect.size().height) as usize],
